@@ -726,6 +726,33 @@ def parse_float_model(it, st, s, name):
                 yield s4, (it.ok(fresh) if good else it.err(err))
 
 
+def M_slice_first_last(last):
+    def f(it, ctx, args, st):
+        """<[T]>::first / last -> Option<&T>"""
+        p = args[0]
+        while isinstance(st.deref(p), Ptr):
+            p = st.deref(p)
+        v = st.deref(p)
+        if isinstance(v, Agg) and len(v.fields) == 1 and isinstance(v.fields[0], (Seq, BStr)):
+            p, v = Ptr(p.addr, p.proj + (('f', 0),)), v.fields[0]
+        if isinstance(v, Seq):
+            yield st, (it.some(Ptr(p.addr, p.proj + (('i', len(v.items) - 1 if last else 0),))) if v.items else it.none)
+            return
+        if not isinstance(v, BStr):
+            raise Unsupported('first/last of ' + repr(v)[:60])
+        if not v.bytes:
+            yield st, it.none
+            return
+        for s2, empty in fork_bool(it, st, v.len == 0):
+            if empty:
+                yield s2, it.none
+            elif not last:
+                yield s2, it.some(Ptr(p.addr, p.proj + (('i', 0),)))
+            else:
+                yield s2, it.some(s2.ref(bstr_byte(v, v.len - 1)))
+    return f
+
+
 def M_str_find(reverse):
     def f(it, ctx, args, st):
         """str::find / rfind with a concrete pattern (&str or ASCII char): byte index of the first / last occurrence"""
@@ -2289,6 +2316,7 @@ MODELS = [
     (r'<' + P + r'(?:result::Result|option::Option)<.*> as ' + P + r'iter::IntoIterator>::into_iter', M_res_into_iter, lambda it, ctx, args, st: isinstance(args[0], Enum) or (isinstance(args[0], Ptr) and isinstance(st.deref_all(args[0]), Enum))),
     (r'<(?:[iu](?:8|16|32|64|128|size)|f64|f32|bool) as ' + P + r'str::FromStr>::from_str', M_from_str_trait),
     (P + r'str::<impl str>::split_once::<char>', M_str_split_once_char),
+    (P + r'slice::<impl \[.*\]>::first', M_slice_first_last(False)), (P + r'slice::<impl \[.*\]>::last', M_slice_first_last(True)),
     (P + r'str::<impl str>::find::<(?:&str|char)>', M_str_find(False)), (P + r'str::<impl str>::rfind::<(?:&str|char)>', M_str_find(True)),
     (P + r'str::<impl str>::starts_with::<&str>', M_str_starts_with_str), (P + r'str::<impl str>::ends_with::<&str>', M_str_ends_with_str),
     (P + r'slice::<impl \[u8\]>::starts_with', M_str_starts_with_str), (P + r'slice::<impl \[u8\]>::ends_with', M_str_ends_with_str),
